@@ -73,6 +73,9 @@ def items(tier, seed):
             for d in (1, -1):
                 for y0 in YVALS if n >= 6 else (None,):
                     out.append({"n": n, "sp": list(sp), "dir": d, "y0": y0})
+    import gc
+
+    gc.freeze()  # keep the forked workers' collector off the parent's heap (fewer copy-on-write faults)
     return out
 
 
